@@ -1,5 +1,7 @@
 import FrappyDrive.C04
+import FrappyDrive.C03
 import FrappyModel.Spec.C06
+import FrappyModel.Node.DescribeDT
 import FrappyModel.Generated.C06
 /- line-protocol glue for C06 (node parser, oracle tables and observation parsers are those of C04) -/
 namespace Frappy.Drive.C06
@@ -117,9 +119,45 @@ def aim (r : Request JJ VV) : Option (ProbeKind × String × String) :=
   | .do_ spec _ => (targetDo spec).map (fun ma => (.do_, ma.1, ma.2))
   | .assign .. => none
 
+/-- the outcome class of a datatype answer (`"ok"`, `"RangeError"`, `"WrongTypeError"`, or the Python class) -/
+def resClass : Frappy.Res Float → String
+  | .ok _ => "ok"
+  | .error .range => "RangeError"
+  | .error .wrongType => "WrongTypeError"
+  | .error (.other c) => c
+
+/-- one parameter of the `datatypes` verb: the datatype of the class, the limits the configuration sets, the datatype
+object of the instance, the described datainfo and payloads — everything derived by the model (`Node/DescribeDT`) -/
+def datatypeCase (p : Json) : R Json := do
+  let D := Frappy.Drive.C03.consts
+  let inst ← Frappy.Drive.C03.dinfoOfJson (← fld p "inst")
+  -- class + configuration -> instance datatype
+  let derived ← match p.getObjVal? "cls" with
+    | .ok .null => pure Json.null
+    | .error _ => pure Json.null
+    | .ok c => do
+      let cls ← Frappy.Drive.C03.dinfoOfJson c
+      let cfg ← (← fldArr p "cfg").mapM (fun row => do
+        match ← arr row with
+        | [.str "min", v] => return (LimitKey.min, ← pvalOfJson v)
+        | [.str "max", v] => return (LimitKey.max, ← pvalOfJson v)
+        | _ => throw "bad limit entry")
+      pure (Frappy.Drive.C03.exToJson Frappy.Drive.C03.dinfoToJson (instanceDatatype D cls cfg))
+  -- instance datatype -> described datainfo
+  let datainfo := Frappy.Drive.C03.exToJson jvalToJson (Frappy.Datatypes.exportDatatype D inst)
+  -- payloads: the node's own datatype, and the client datatype rebuilt from the DESCRIBED datainfo
+  let described ← jvalOfJson (← fld p "described")
+  let probes ← (← fldArr p "probes").mapM (fun w => do
+    let j ← jvalOfJson w
+    return jarr [Json.str (resClass (Frappy.Datatypes.acceptWire inst.erase j none)), Json.str (resClass (clientAccept D described j none))])
+  return Json.mkObj [("inst", derived), ("datainfo", datainfo), ("probes", jarr probes),
+                     ("exportable", .bool inst.exportableB), ("wf", .bool inst.erase.wfB)]
+
 def handle (j : Json) : R Json := do
   let k ← fldStr j "k"
   match k with
+  | "datatypes" =>
+    return Json.mkObj [("params", jarr (← (← fldArr j "params").mapM datatypeCase))]
   | "describe" =>
     let t ← parseTables (← fld j "oracle")
     let (n, inits) ← parseNodeInit t (← fld j "node")
